@@ -163,6 +163,10 @@ mut("C15 new_zeros_from_num allocates dim + dim", [(MAT, "data: SmallVec::from_e
 # ---- an undecidable statement that contains a value-returning exit must not be skipped ----
 mut("engine: early Ok return behind a test outside the model", [(MAT, "        // start cholesky decomposition", "        if (0..self.dim).rev().all(|i| self[(i, i)] == self.zero()) {\n            return Ok(DecompositionResult { determinant: self.zero(), inverse: self.clone(), q_transposed_inverse: self.clone(), q_transposed: self.clone() });\n        }\n        // start cholesky decomposition")], C15="C15-", C08="C08-c", C10="C10-")
 mut("engine: value-returning exit inside the sector while loop", [(SAM, "        x_vec[edge] = kappa.clone();\n", "        x_vec[edge] = kappa.clone();\n        if x_vec[edge] == rng.zero() {\n            return PermatuhedralSamplingResult { x: x_vec, u_trop, v_trop };\n        }\n")], C07="C07-", C11="C11-")
+# ---- entry clause: behaviour-preserving forms of forwarding the inputs ----
+_ENTRY_OLD = "        sample(\n            &self.table,\n            x_space_point,\n            &self.loop_signature,\n            &edge_data,\n            settings,"
+mut("entry N: inputs through locals and a full reslice", [(LIB, _ENTRY_OLD, "        let point = &x_space_point[..];\n        let table = &self.table;\n        let data = edge_data.as_slice();\n        sample(\n            table,\n            point,\n            &self.loop_signature,\n            data,\n            settings,")], C12=None, C13=None, C14=None, C01=None)
+mut("entry: point re-collected after a map", [(LIB, _ENTRY_OLD, "        let point = x_space_point.iter().map(|x| x.clone() * x.one()).collect_vec();\n        sample(\n            &self.table,\n            &point,\n            &self.loop_signature,\n            &edge_data,\n            settings,")], C12="C12-g", C13="C13-g", C14="C14-k")
 # ---- C15-e series, decided at matrix level ----
 _PUSH_OLD = """            let last_power_of_n = powers_of_n
                 .last()
